@@ -43,6 +43,8 @@ def member(rng, k, idx):
     o = {}
     if k == "probe":
         o = {"id": idx + 1, "closeerr": rng.choice([0, 1])}
+    elif k == "nested":
+        o = {"n": rng.choice([2, 3])}
     elif k == "nackgen":
         o = {"size": rng.choice([64, 512]), "skip": rng.choice([0, 1]), "max": rng.choice([0, 2]), "ivl": 1}
     elif k == "nackresp":
@@ -197,6 +199,13 @@ def run(ctx):
     scripts = [build_script(rng, c["chain"], random_prog(rng, 8)) for c in chains]
     if ctx.quick:
         scripts = rng.sample(scripts, 140)
+    # a Chain as a member of the chain (its Close reports several errors) with failing members after it
+    for chain in (["nested", "probe", "probe"], ["probe", "nested", "probe"], ["nested", "nested", "probe"], ["noop", "nested", "probe", "nackgen"]):
+        sc = build_script(rng, chain, random_prog(rng, 4))
+        for m in sc["members"]:
+            if m["k"] == "probe":
+                m["o"]["closeerr"] = 1
+        scripts.append(sc)
     run_batch(ctx, scripts, "G-chains")
     # (G) every L-step program on every order of a rich chain
     L = 2 if ctx.quick else 3
